@@ -233,6 +233,7 @@ protected:
 	Shared<HttpSink> _sink;
 	bool _fileBody;
 	bool _chunked;
+	bool _ownChunks; // the chunked coding was chosen (and announced) by sendHeaders(), not by the owner of the message
 	bool _headersSent;
 	Shared<HttpStatus> _status;
 	String _socketError;
